@@ -11,6 +11,7 @@
   Termination itself (well-founded descent of |h| under the underflow guard) is not proved; the hostile monitor runs
   blow-up / NaN / discontinuous / stiff problems on all six methods under a work budget.
 -/
+import IvpModel.Proofs.Termination
 import IvpModel.Proofs.CtlField
 import IvpModel.Proofs.RadauNumLemmas
 
